@@ -168,6 +168,11 @@ def make_segments(rows, case):
         segs.append(cur)
     recs = []
     for k, s in enumerate(segs):
+        if case["seed"] % 5 == 2 and len(s) >= 3:
+            # segments as `segment` leaves them when it dropped a low-coverage bin at their end: the last bin of the run
+            # lies in no segment, between this one and the next (seeded change C16q counted the bins right of a break from
+            # the next segment's start, so such a bin was on neither side)
+            s = s[:-1]
         w = sum(r["weight"] for r in s)
         vals = [r["log2"] for r in s if r["log2"] > -15] or [0.0]
         lg = float(np.mean(vals)) + (case["seg_jitter"] if k % 2 else 0.0)
